@@ -2,6 +2,9 @@
 //! with recursively resolving the `include` directives.
 
 #[cfg(okane_verif)]
+#[allow(unused_imports)]
+use crate::verif::chrono;
+#[cfg(okane_verif)]
 use crate::verif::{glob, std};
 use std::{
     borrow::Cow,
